@@ -47,6 +47,11 @@ def field_srcs(fields):
             out.append('"%s"/Struct("a"/BitsInteger(%d), "b"/BitsInteger(%d, signed=True))' % (nm, f[1], f[2]))
         elif k == 'nib':
             out.append('"%s"/%s' % (nm, f[1]))
+        elif k == 'zero':
+            out.append({'pad': 'Padding(0)', 'bytewise': '"%s"/Bytewise(Bytes(0))' % nm, 'array': '"%s"/Array(0, Bit)' % nm,
+                        'bytes': '"%s"/Bytes(0)' % nm}[f[1]])
+        elif k == 'aligned':
+            out.append('"%s"/Aligned(8, BitsInteger(%d))' % (nm, f[1]))
     return out
 
 
@@ -71,6 +76,8 @@ def expected_bits(fields, vals):
             parts = [(f[1], vals[nm]['a']), (f[2], vals[nm]['b'] & ((1 << f[2]) - 1))]
         elif k == 'nib':
             parts = [({'Bit': 1, 'Nibble': 4, 'Octet': 8}[f[1]], vals[nm])]
+        elif k == 'aligned':
+            parts = [(f[1], vals[nm]), ((-f[1]) % 8, 0)]
         for w, p in parts:
             acc = (acc << w) | p
             total += w
@@ -80,13 +87,22 @@ def expected_bits(fields, vals):
 def width_of(f):
     k = f[0]
     return {'int': lambda: f[1], 'flag': lambda: 1, 'pad': lambda: f[1], 'bytewise': lambda: 8 * f[1], 'array': lambda: f[1] * f[2],
-            'struct': lambda: f[1] + f[2], 'nib': lambda: {'Bit': 1, 'Nibble': 4, 'Octet': 8}[f[1]]}[k]()
+            'struct': lambda: f[1] + f[2], 'nib': lambda: {'Bit': 1, 'Nibble': 4, 'Octet': 8}[f[1]], 'zero': lambda: 0,
+            'aligned': lambda: f[1] + (-f[1]) % 8}[k]()
 
 
 def gen_fields(rng, total):
     fields, left = [], total
     while left > 0:
         r = rng.random()
+        if rng.random() < 0.08:
+            fields.append(('zero', rng.choice(['pad', 'bytewise', 'array', 'bytes'])))       # zero-width members read nothing
+            continue
+        if left >= 8 and rng.random() < 0.06:
+            f = ('aligned', rng.choice([8, 3, 5, 8]))
+            fields.append(f)
+            left -= width_of(f)
+            continue
         if r < 0.55:
             w = min(left, rng.choice([1, 1, 2, 3, 4, 5, 6, 7, 8, 9, 11, 12, 13, 16, 17, 24]))
             sw = (w % 8 == 0) and rng.random() < 0.4
@@ -131,6 +147,10 @@ def gen_vals(rng, fields, exhaustive_index=None):
             vals[nm] = dict(a=rng.randrange(1 << f[1]), b=rng.randint(-(1 << (f[2] - 1)), (1 << (f[2] - 1)) - 1))
         elif k == 'nib':
             vals[nm] = rng.randrange(1 << {'Bit': 1, 'Nibble': 4, 'Octet': 8}[f[1]])
+        elif k == 'zero' and f[1] != 'pad':
+            vals[nm] = [] if f[1] == 'array' else b''
+        elif k == 'aligned':
+            vals[nm] = rng.randrange(1 << f[1])
     return vals
 
 
@@ -167,6 +187,19 @@ def o_bitpack(src, fields, vals_list, datas):
         if a[0] != b[0] or (a[0] == 'ok' and clean(a[1]) != {k: v for k, v in clean(b[1]).items()}):
             return 'parse(%r): pre-read region gives %r, streaming region gives %r' % (d, a, b)
     return None
+
+
+@C.oracle('zero_region')
+def o_zero_region(src, data, rest):
+    """a zero-width bit / swapped region between byte fields reads nothing: what follows sees every remaining byte"""
+    p = res(lambda: C.get(src).parse(data))
+    if p[0] != 'ok' or bytes(p[1].r) != rest:
+        return 'parse(%r) gives %r, the bytes after the zero-width region are %r' % (data, p, rest)
+    return None
+
+
+ZERO_REGIONS = ['BitStruct("c"/Computed(1))', 'Bitwise(Struct())', 'Bitwise(Bytes(0))', 'BitStruct(Padding(0))', 'ByteSwapped(Bytes(0))',
+                'BitsSwapped(Struct())', 'Bitwise(Array(0, Bit))', 'BitStruct("x"/Bytewise(Bytes(0)))', 'Transformed(Bytes(0), bytes2bits, 0, bits2bytes, 0)']
 
 
 @C.oracle('bit_tail')
@@ -255,6 +288,11 @@ def run(tier, seed):
                 cases.append(dict(src=src, op='build', obj=v))
             for _ in range(10):
                 cases.append(dict(src=src, op='parse', data=G.rand_bytes(rng, (w + 8) // 8)))
+    for z in ZERO_REGIONS:
+        src = 'Struct("a"/Byte, "z"/%s, "r"/GreedyBytes)' % z
+        for d in (b'\x01hello', b'\x01', b'\x01\xff\x00\x80'):
+            acc.check('zero_region', src, data=d, rest=d[1:])
+            cases.append(dict(src=src, op='parse', data=d))
     acc.corr(cases, 'bits')
     return acc.result(
         rule='random partitions of 8..32 bits (thorough: ..64) into BitsInteger fields of width 1..24 with signed/swapped flags, Flag, Padding, Bit/Nibble/'
